@@ -21,7 +21,8 @@ EXPLANATION = (
     "x,s,z,tau,kappa, and set_identity_scaling wholly rewrites every scaling field the KKT update reads, and every cone's unit_initialization wholly overwrites both of its vectors on every path; (R7) the units premises: every stage keeps the data in the coordinates the equilibration records; (R8) the LDL back ends agree on the value-update entry points (C08.R5 re-run); (R9) cone rectification of the equilibration (C10.R4 re-run)."
     " R6 also: a vector that unit_initialization copies into the other one is final when copied (no later write to the source)."
     " (R10) the interior shift of the start point is the three-way table of C07.R5 (the zero-cone slack is forced to zero on every branch); (R11) solve_initial_point produces x, s, z from the data on every completing path."
-    " (R12) to_triu, through which a full symmetric P is normalised, keeps exactly the upper triangle with a cumulative colptr (C16.R7 re-run).")
+    " (R12) to_triu, through which a full symmetric P is normalised, keeps exactly the upper triangle with a cumulative colptr (C16.R7 re-run)."
+    ' (R13) costs, residuals and gaps are computed by the documented relative formulas (C03.R2 re-run): objective scaling invariance of the verdict rests on the absolute values and max(1, .) normalisers.')
 ASSUMPTIONS = [
     'rustc MIR construction and trait resolution are correct',
     'IndexSet/IndexMap iterate in insertion order; Vec/slice iteration is ordered',
@@ -473,6 +474,12 @@ def run(ctx, rep, tier):
         from . import steplen
         steplen.interior_shift(rep, ctx.facts(cfg), tag, 'C05.R10')
         initial_point_writes(rep, ctx.facts(cfg), tag)
+    # "objective scaled by a positive constant gives the same verdict": the convergence figures are relative measures - the documented formulas of the
+    # gaps and residuals (absolute values and max(1, .) normalisers in place) are what makes them scale-free (C03.R2 forms re-run)
+    from . import forms_rules, units_rules
+    for cfg in units_rules.CFGS:
+        R13 = rep.rule('C05.R13', 'the convergence figures (costs, residuals, gaps) follow the documented scale-free formulas (signed forms)')
+        R13.guard(lambda: forms_rules.report_forms(R13, ctx, cfg, '', which=('cost', 'res')))
     # "P given full or upper-triangular": the full form goes through to_triu (C16.R7 re-run)
     from . import c16
     c16.triangle(rep, ctx.facts('default'), '', 'C05.R12')
